@@ -13,7 +13,8 @@ EXPL = ('(R-POLY/line) miller_doubling_step / miller_addition_step are interpret
         'conjugate -> *q^6, frobenius(k) -> *q^k, the x-power chains run over the bits of the bls_x constant) and its total exponent '
         'equals 3*(q^12-1)/r modulo q^12-1, for distinct and for aliased result/argument - so every output has order dividing r and '
         'the map is the cube of the reduced pairing for ALL Miller-loop outputs, given that the tower operations are the field '
-        'operations (C04).')
+        'operations (C04).'
+        ' (R-CCL/schedule) the constant-controlled loops of miller_loop are run concretely, whatever their form; the trace of accumulator updates per pair is exactly the Miller schedule of |x| (blocks D E (A E)? per bit position below the top one, one squaring between blocks, none after the last, nothing else touching the accumulator, which is set to one once).')
 
 
 def run(ctx):
